@@ -40,8 +40,12 @@ def evaluate(mod, cases, tag):
     """run impl + model on the cases; returns list of dict(case, res, err, ok)"""
     rows = []
     terms, idx = [], []
+    timing = {}
     for c in cases:
+        t1 = time.time()
         res, err = run_one(mod, c)
+        k = str(c.get("stream", c.get("kind", "")))
+        timing[k] = timing.get(k, 0.0) + time.time() - t1
         row = dict(case=c, res=res, err=err, ok=None)
         if err is not None:
             row["ok"] = False
@@ -58,6 +62,8 @@ def evaluate(mod, cases, tag):
                                    shard=getattr(mod, "SHARD", 150))
     for i, v in zip(idx, verdicts):
         rows[i]["ok"] = v
+    if os.environ.get("VERIF_TIMING"):
+        print("impl seconds by stream/kind:", {k: round(v, 1) for k, v in timing.items()}, flush=True)
     return rows
 
 
